@@ -33,6 +33,7 @@ CONSTANTS
    Targets,       \* objects that construction calls may target
    AddPairs,      \* set of <<parent, sub>> pairs allowed for add
    TmplLoss,      \* TRUE: the templates contain a loss element
+   TmplU,         \* TRUE: templates with at least three lines end in a 3-line unitary block (on their last three lines)
    Ordered,       \* TRUE: programs are generated in canonical stage order (cuts interleavings of independent calls)
    MaxHer,        \* <<h1, h2, ...>> heralds declared per object
    MaxAdds,       \* add calls per program
@@ -57,6 +58,7 @@ Objs == 1..NObj
 \* a distinct phase on every line plus couplers between neighbours, so that any mis-routing of any
 \* line changes the matrix (identity sub-circuits would hide wiring errors)
 TemplateOps(n) == [i \in 1..n |-> OpPs(i, i)] \o [i \in 1..(n-1) |-> OpBs(i, i+1, 1, IF i % 2 = 1 THEN "Rx" ELSE "H")]
+                  \o (IF TmplU /\ n >= 3 THEN <<OpU(<<n - 2, n - 1, n>>, "C3")>> ELSE <<>>)
                   \o (IF TmplLoss THEN <<OpLoss(1, 1)>> ELSE <<>>)
 ParentOps(n) == <<OpPs(1, 3)>> \o [i \in 1..(n-1) |-> OpBs(i, i+1, 1, "Rx")]
 InitCircs ==
@@ -219,7 +221,7 @@ Read(t, name, args, ok, value) ==
 DoSimulate(t, ins)        == Read(t, "simulate", <<ins>>, InputOk(circ[t], ins), SimTable(circ[t], sem[t], ins))
 DoSamplerDist(t, ins)     == Read(t, "sdist", <<ins>>, InputOk(circ[t], ins), <<DistL(circ[t], ins), SamplerDist(circ[t], sem[t], ins)>>)
 DoAnalyze(t, ins, ps)     == Read(t, "analyze", <<ins, ps>>, InputOk(circ[t], ins), <<DistL(circ[t], ins), AnalyzerTable(circ[t], sem[t], ins, ps)>>)
-DoQuick(t, ins, ps, pnr)  == Read(t, "quick", <<ins, ps, pnr>>, InputOk(circ[t], ins) /\ NPhot(ins) > 0,
+DoQuick(t, ins, ps, pnr)  == Read(t, "quick", <<ins, ps, pnr>>, InputOk(circ[t], ins),
                                   <<DistL(circ[t], ins), QuickTable(circ[t], sem[t], ins, ps, pnr)>>)
 ReadKinds == {"simulate", "sdist", "analyze", "quick"}
 Reads(t) ==
